@@ -214,6 +214,7 @@ package shmipc
 // Fields of an established session that calls into unknown code (user callbacks, interface
 // methods) cannot change synchronously: they are written only during construction/handshake and by
 // the closure Session.Close posts to the event loop, which runs between event batches.
+//@ stable connEventHandler.callback
 //@ stable Session.queueManager, Session.bufferManager, Session.streams, Session.manager, Session.listener, Session.communicationVersion
 
 // sessOK: what newSession establishes for a session that reached the event phase and is not torn down.
@@ -227,6 +228,7 @@ package shmipc
 //@ nonnil Session.logger, Session.config, Session.shutdownCh
 //@ nonnil queueManager.sendQueue, queueManager.recvQueue
 //@ nonnil queue.head, queue.tail, queue.workingFlag
+//@ nonnil connEventHandler.onWriteReadyCh, connEventHandler.dispatcher
 //@ nonnil bufferList.size, bufferList.cap, bufferList.head, bufferList.tail, bufferList.capPerBuffer, bufferList.counter
 //@ pure qDisjoint(a *queue, b *queue): bool = region(a.queueBytesOnMemory) != region(b.queueBytesOnMemory)
 //@ |  || off(a.queueBytesOnMemory) + len(a.queueBytesOnMemory) <= poff(b.head) || off(b.queueBytesOnMemory) + len(b.queueBytesOnMemory) <= poff(a.head)
@@ -314,9 +316,11 @@ package shmipc
 
 // --- handshake phase (blocking reads on the raw connection) ---
 //@ func blockReadFull
+//@   ensures  result == nil ==> readSize == len(data)
 //@   loop 0 invariant 0 <= readSize && readSize <= len(data)
 
 //@ func blockWriteFull
+//@   ensures  result == nil ==> written == len(data)
 //@   loop 0 invariant 0 <= written && written <= len(data)
 //@   modifies nothing
 
@@ -410,3 +414,29 @@ package shmipc
 
 //@ func createProtoVersionInitializer
 //@   requires session != nil
+
+// ---------------------------------------------------------------------------
+// C18: the event connection moves bytes exactly once and in order
+// ---------------------------------------------------------------------------
+// abstract view of the receive window: the bytes readBuffer[readStartOff:readEndOff)
+//@ func (*connEventHandler).maybeExpandReadBuffer
+//@   requires wfConn(c)
+//@   assume   len(c.readBuffer) <= 1099511627776   // environment: the receive buffer never reaches 1 TiB
+//@   ensures  wfConn(c) && len(c.readBuffer) - c.readEndOff >= 1
+//@   ensures  c.readEndOff - c.readStartOff == old(c.readEndOff - c.readStartOff)
+//@   ensures  forall k in [0, c.readEndOff - c.readStartOff): mem8(c.readBuffer, c.readStartOff + k) == old(mem8(c.readBuffer, c.readStartOff + k))
+//@   ensures  old(len(c.readBuffer) - c.readEndOff) > 0 ==> c.readBuffer == old(c.readBuffer) && c.readStartOff == old(c.readStartOff)
+//@   modifies c.readBuffer, c.readStartOff, c.readEndOff
+
+// onReadReady: the callback is user-level code for this property (it may call commitRead with 0 <= n <= window)
+//@ func (*connEventHandler).onReadReady
+//@   opaque   onEventData, onRemoteClose
+//@   requires c.callback != nil
+//@   preserves wfConn(c)
+//@   loop 0 invariant wfConn(c) && c.callback != nil
+
+//@ func (*connEventHandler).write
+//@   ensures  r0 == nil ==> written == len(data)
+//@   loop 0 invariant 0 <= written && written <= size && size == len(data)
+//@   modifies nothing
+
